@@ -4,11 +4,14 @@ CONSTANTS
   Files <- MCFiles
   Nested <- MCNested
   W = 3
-  NestedOrder = "hash"
+  NestedOrder = "decl"
   FileOrder = "input"
   ItemOrder = "id"
   Stem <- MCStem
-  NameScope = "module"
+  NameScope = "worker"
 INVARIANT OutputIsFunctionOfInput
+INVARIANT SplitOutputIsFunctionOfInput
+INVARIANT SplitNamesDistinct
+INVARIANT SplitIsPartition
 PROPERTY Terminates
 CHECK_DEADLOCK FALSE
